@@ -79,27 +79,33 @@ def main():
         return 0
     expected = json.load(open(exp_path))
     problems, n = [], 0
-    for comp in args:
-        for f, exp in expected.get(comp, {}).items():
-            g, b = extract(os.path.join(REPO, f))
-            # Compared as a multiset of (label, expression) per file, independent of the enclosing
-            # function: moving an assertion into a helper is a harmless rewrite, removing or
-            # weakening one is not.
-            from collections import Counter
-            now = Counter((lab, e) for (fn, lab), e in g.items())
-            want = Counter((key.split("::", 1)[1], e) for key, e in exp["guards"].items())
-            for (lab, e), cnt in want.items():
-                n += 1
-                if now.get((lab, e), 0) < cnt:
-                    others = [x for (l2, x) in now if l2 == lab and x != e]
-                    if others:
-                        problems.append(f"{f}: static assertion {lab} changed: expected `{e}` x{cnt}, found `{others[0]}`")
-                    else:
-                        problems.append(f"{f}: static assertion {lab} ({e}) occurs {now.get((lab, e), 0)} times, expected {cnt}")
+    from collections import Counter
+    if True:
+        # Compared as a multiset of (label, expression) over all files of the components named on
+        # the command line, independent of the enclosing function and file: moving an assertion
+        # into a (shared) helper is a harmless rewrite, removing or weakening one is not.
+        comp = "+".join(args)
+        now, want = Counter(), Counter()
+        seen = set()
+        for f, exp in [(f, e) for c in args for f, e in expected.get(c, {}).items()]:
+            if f in seen:
+                continue
+            seen.add(f)
+            g_, b = extract(os.path.join(REPO, f))
+            now.update((lab, e) for (fn, lab), e in g_.items())
+            want.update((key.split("::", 1)[1], e) for key, e in exp["guards"].items())
             for key, cnt in exp["bounds"].items():
                 n += 1
                 if b.get(key, 0) < cnt:
                     problems.append(f"{f}: trait bound `{key}` occurs {b.get(key, 0)} times, expected at least {cnt}")
+        for (lab, e), cnt in want.items():
+            n += 1
+            if now.get((lab, e), 0) < cnt:
+                others = [x for (l2, x) in now if l2 == lab and x != e]
+                if others:
+                    problems.append(f"component {comp}: static assertion {lab} changed: expected `{e}` x{cnt}, found `{others[0]}`")
+                else:
+                    problems.append(f"component {comp}: static assertion {lab} ({e}) occurs {now.get((lab, e), 0)} times, expected {cnt}")
     for p in problems:
         print("GUARD-PROBLEM", p)
     print(f"static guards: {n} checked, {len(problems)} problems")
